@@ -24,6 +24,9 @@ Definition split_colon (s : str) : list str := split_colon_aux s [].
 Definition lower_str (s : str) : str := map to_ascii_lower s.
 
 Definition data_hyphen_name (n : str) : str := dash_to_camel (lower_str (skipn 5 n)).
+(* `data-xxx` with a non-empty xxx; a bare `data-` is an ordinary attribute *)
+Definition is_data_hyphen (n : str) : bool :=
+  starts_with (lit "data-") n && match skipn 5 n with [] => false | _ => true end.
 
 Definition ev_key (n : str) (final mut capture : bool) : str :=
   let b (x : bool) := if x then lit "1" else lit "0" in
@@ -39,11 +42,11 @@ Definition route (k : ekind) (raw : str) : option str :=
            | KView =>
                if str_eqb n (lit "class") then Some (lit "c:")
                else if str_eqb n (lit "style") then Some (lit "y:")
-               else if starts_with (lit "data-") n then Some (lit "d:" ++ data_hyphen_name n)
+               else if is_data_hyphen n then Some (lit "d:" ++ data_hyphen_name n)
                else Some (lit "r:" ++ n)
            | KSlot =>
                if str_eqb n (lit "name") then Some (lit "slotname")
-               else if starts_with (lit "data-") n then Some (lit "d:" ++ data_hyphen_name n)
+               else if is_data_hyphen n then Some (lit "d:" ++ data_hyphen_name n)
                else Some (lit "l:" ++ dash_to_camel n)
            end
   | [p; n] =>
